@@ -6,6 +6,7 @@ import (
 	"flag"
 	"fmt"
 	"math/big"
+	"math/rand"
 	"os"
 	"sort"
 	"strings"
@@ -33,6 +34,19 @@ type Job struct {
 	Concrete   map[string]string `json:"concrete"`
 	TimeoutS   int               `json:"timeout_s"`
 	Trace      bool              `json:"trace"`
+	DiffK      int               `json:"diff_k"`
+	Seed       int64             `json:"seed"`
+	MaxSteps   int64             `json:"max_steps"`
+	Params     map[string]int    `json:"params"`
+}
+
+type DiffRun struct {
+	Model        map[string]string `json:"model"`
+	Error        string            `json:"error,omitempty"`
+	Failed       bool              `json:"failed"`
+	Infeasible   bool              `json:"infeasible"`
+	Inconclusive []string          `json:"inconclusive,omitempty"`
+	Observations map[string]string `json:"observations"`
 }
 
 type Spec struct {
@@ -63,6 +77,7 @@ type JobResult struct {
 	Exhaustive   bool                         `json:"exhaustive"`
 	SolverS      float64                      `json:"solver_s"`
 	WallS        float64                      `json:"wall_s"`
+	Diff         []*DiffRun                   `json:"diff,omitempty"`
 }
 
 func main() {
@@ -178,7 +193,7 @@ func runJob(prog *ssa.Program, job *Job) (jr *JobResult) {
 		return
 	}
 	cfg := sym.Config{Unwind: job.Unwind, AllocBound: job.AllocBound, PermBound: job.PermBound, MaxPaths: job.MaxPaths,
-		QueryMs: job.QueryMs, Solver: job.Solver, Stubs: job.Stubs, Trace: job.Trace, Known: map[string]bool{}}
+		MaxSteps: job.MaxSteps, Params: job.Params, QueryMs: job.QueryMs, Solver: job.Solver, Stubs: job.Stubs, Trace: job.Trace, Known: map[string]bool{}}
 	if job.Mode == "int" {
 		cfg.Mode = sym.ModeInt
 	}
@@ -226,5 +241,111 @@ func runJob(prog *ssa.Program, job *Job) (jr *JobResult) {
 	jr.DistinctQ = len(res.DistinctQ)
 	jr.Exhaustive = res.Exhaustive
 	jr.SolverS = in.SolverTime().Seconds()
+	if job.DiffK > 0 && job.Concrete == nil {
+		jr.Diff = diffRuns(prog, fn, cfg, job, res)
+	}
 	return
+}
+
+// diffRuns executes the harness in concrete mode on witness / counterexample models and perturbations of them.
+func diffRuns(prog *ssa.Program, fn *ssa.Function, cfg sym.Config, job *Job, res *sym.Result) []*DiffRun {
+	var base []map[string]string
+	var keys []string
+	for k := range res.Witness {
+		keys = append(keys, k)
+	}
+	sort.Strings(keys)
+	for _, k := range keys {
+		base = append(base, res.Witness[k])
+	}
+	for _, v := range res.Violations {
+		if v.Model != nil {
+			base = append(base, v.Model)
+		}
+	}
+	if len(base) == 0 {
+		return nil
+	}
+	rnd := rand.New(rand.NewSource(job.Seed + 1))
+	var models []map[string]string
+	for i := 0; i < len(base) && len(models) < job.DiffK; i++ {
+		models = append(models, base[i])
+	}
+	for len(models) < job.DiffK {
+		models = append(models, perturb(base[rnd.Intn(len(base))], rnd))
+	}
+	var out []*DiffRun
+	for _, m := range models {
+		dr := &DiffRun{Model: m}
+		out = append(out, dr)
+		c := cfg
+		c.Concrete = map[string]*big.Int{}
+		for k, v := range m {
+			if b, ok := new(big.Int).SetString(v, 10); ok {
+				c.Concrete[k] = b
+			}
+		}
+		func() {
+			defer func() {
+				if r := recover(); r != nil {
+					dr.Error = fmt.Sprintf("engine panic (concrete): %v", r)
+				}
+			}()
+			in, err := sym.New(prog, c)
+			if err != nil {
+				dr.Error = err.Error()
+				return
+			}
+			defer in.Close()
+			r := in.Run(fn)
+			dr.Failed = len(r.Violations) > 0
+			dr.Infeasible = r.Stats.Infeasible > 0
+			dr.Inconclusive = r.Inconclusive
+			if len(r.Observations) > 0 {
+				dr.Observations = r.Observations[0]
+			}
+		}()
+	}
+	return out
+}
+
+func perturb(m map[string]string, rnd *rand.Rand) map[string]string {
+	out := map[string]string{}
+	var keys []string
+	for k, v := range m {
+		out[k] = v
+		if !strings.HasPrefix(k, "$") {
+			keys = append(keys, k)
+		}
+	}
+	sort.Strings(keys)
+	if len(keys) == 0 {
+		return out
+	}
+	n := 1 + rnd.Intn(2)
+	for i := 0; i < n; i++ {
+		k := keys[rnd.Intn(len(keys))]
+		v, ok := new(big.Int).SetString(out[k], 10)
+		if !ok {
+			continue
+		}
+		switch rnd.Intn(6) {
+		case 0:
+			v.Add(v, big.NewInt(1))
+		case 1:
+			if v.Sign() > 0 {
+				v.Sub(v, big.NewInt(1))
+			}
+		case 2:
+			v.SetInt64(int64(rnd.Intn(256)))
+		case 3:
+			v.SetInt64(0)
+		case 4:
+			v.Lsh(v, 1).Add(v, big.NewInt(1))
+		default:
+			v.SetInt64(rnd.Int63n(1 << 40))
+		}
+		out[k] = v.String()
+	}
+	return out
 }
